@@ -191,6 +191,10 @@ func checkC11(c *core.Ctx) {
 
 	r6 := c.Rule("R11.6", "T", "no use after release: once a page is handed back to the page cache, fields the cache overwrites (or any field, when the cache is a shared pool) are not read again in that function")
 	r8 := c.Rule("R11.8", "T", "functions that take pages from the cache report the number taken by counting them")
+	r9c := c.Rule("R11.9", "T", "a recycled connection carries nothing over (= R9.12/R10.12): in particular the last-seen time by which an age-based flush decides, and the queue and page counters by which close releases pages")
+	for _, pk := range []string{"tcpassembly", "reassembly"} {
+		checkConnReset(c, r9c, pk)
+	}
 	r7 := c.Rule("R11.7", "T", "free-list discipline: a connection is pushed on the pool's free list only when it was found in the live map, or only from the once-per-connection close function")
 	for _, pkg := range []string{"reassembly", "tcpassembly"} {
 		lp := &lifePkg{pkg: pkg, closers: map[*ssa.Function]bool{}, notClose: map[string]int{}}
